@@ -304,7 +304,7 @@ def prepare (c : CDS) (win : Option Blk) : R (Location × Int) :=
 
 /-- `range(start, stop, 3)` for `start ≥ 0` -/
 def range3 (start stop : Int) : List Int :=
-  if stop ≤ start then [] else (List.range ((stop - start + 2) / 3).toNat).map (fun i => start + 3 * (i : Int))
+  if stop ≤ start then [] else (List.range ((stop - start + 2) / 3).toNat).map (fun (i : Nat) => start + 3 * (i : Int))
 
 /-- `Location.scan_windows(window_size=3, step_size=3, start_pos)` -/
 def scanWindows3 (l : Location) (startPos : Int) : R (List Location) := do
